@@ -29,6 +29,8 @@ import random as _pyrandom
 import shutil
 import tempfile
 
+from . import _c10ext
+
 LEVEL = "proof"
 RULE = ("histories on SHARED argument objects of seeded data sets (3-4 chromosomes, 80-250 bins; raw coverages sorted / "
         "unsorted / with a gc column / without rows / mostly without coverage, references with and without gc-rmask and "
@@ -1344,8 +1346,15 @@ def _run_gather(case):
 # harness interface
 
 
+def _self():
+    import sys
+    return sys.modules[__name__]
+
+
 def run_impl(case):
     op = case["op"]
+    if op in _c10ext.OPS:
+        return _c10ext.run_impl(_self(), case)
     if op == "history":
         return _run_history(case)
     if op == "ensure_path":
@@ -1363,6 +1372,8 @@ def _failed(impl):
 
 def to_line(case, impl):
     op, i = case["op"], case["in"]
+    if op in _c10ext.OPS:
+        return _c10ext.to_line(_self(), case, impl)
     if _failed(impl):
         impl_j = None
     if op == "history":
@@ -1390,6 +1401,8 @@ def judge(case, impl, resp):
     if "error" in resp:
         return [], ["driver error: " + str(resp["error"])], None
     op, out = case["op"], resp["out"]
+    if op in _c10ext.OPS:
+        return _c10ext.judge(_self(), case, impl, resp)
     spec_fail = list(resp.get("spec") or [])
     disagree = []
     if op == "history":
@@ -1420,6 +1433,8 @@ def nontrivial(case, impl, resp):
     if _failed(impl):
         return False
     op, i = case["op"], case["in"]
+    if op in _c10ext.OPS:
+        return _c10ext.nontrivial(_self(), case, impl, resp)
     if op == "history":
         return len(i["steps"]) >= 2 or any("@p" in s["name"] for s in i["steps"])
     if op == "ensure_path":
@@ -1583,6 +1598,7 @@ def gen_cases(rng, tier):
     cases += _trace_cases(rng, dss[0], n_tr)
     for _ in range(n_ga):
         cases.append(_gather_case(rng))
+    cases += _c10ext.gen_cases(_self(), rng, tier, dss)   # round 4: library draws, alias probes (after the others: case i of seed s stays case i)
     only = os.environ.get("C10_ONLY")  # development (mutation runs): keep only the cases whose tag contains one of these
     if only:
         cases = [c for c in cases if any(t in str(c.get("tag", "")) for t in only.split(","))]
@@ -1613,6 +1629,7 @@ def corpus():
                    (["out.cnn.1"], 2), (["out.cnn"] + ["out.cnn.%d" % j for j in range(1, 11)], 2)):
         cs.append({"op": "ensure_path", "tag": "corpus", "in": {"pre": [[n, "pre:" + n] for n in pre], "path": "out.cnn",
                                                                "writes": k, "guarded": True}})
+    cs += _c10ext.corpus(_self())
     return cs
 
 
